@@ -649,6 +649,87 @@ def judge_r2(inp, obs, lr):
     return None
 
 
+# ---- sessions: generic defences G1-G4 for the automata -------------------------------------------------------------
+def gen_session(rng, n):
+    for _ in range(n):
+        rank = rng.choice([2, 3, 3])
+        members = []
+        for _m in range(rng.choice([2, 3])):
+            M = _sym(_variants(rng, rng.choice(R2 if rank == 2 else R3_LABELLED)))
+            members.append({"M": M, "ctor": rng.choice(X.CTORS), "style": rng.choice(["alpha", "alphanum"])})
+        steps = [{"g": rng.randrange(len(members)), "lex": rng.random() < 0.5, "even": rng.random() < 0.4,
+                  "scribble": rng.choice([None, None, "delete", "rename", "clear", "add"])} for _ in range(rng.choice([5, 7, 9]))]
+        yield {"rank": rank, "members": members, "steps": steps}
+
+
+def _aut_graph(aut, names, even):
+    n = len(names)
+    lab = {names[a] + names[b]: a * n + b for a in range(n) for b in range(n)} if even else {nm: k for k, nm in enumerate(names)}
+    g = {}
+    for v, nb in aut.graph_dict.items():
+        g[v] = {(lab[l] if l in lab else "?" + str(l)): t for l, t in nb.items()}
+    return [canon_graph(g) if all(not isinstance(l, str) for nb in g.values() for l in nb) else sorted(map(str, g.items())),
+            list(aut.start_vertices)]
+
+
+def run_session(inp):
+    from geometry_tools import coxeter
+    rank = inp["rank"]
+    work = np.ones((rank, rank), dtype=int)
+    keep, objs = [], []
+    for mem in inp["members"]:
+        G, names = X.construct(mem, rank, work, keep)
+        objs.append((G, names, mem["M"]))
+    work[...] = 2
+    np.fill_diagonal(work, 1)
+    for obj in keep:
+        if isinstance(obj, np.ndarray):
+            obj[...] = 3
+        else:
+            for row in obj:
+                row[-1] = 3
+    alpha = ["abcdefgh"[i] for i in range(rank)]
+    res = []
+    for si, st in enumerate(inp["steps"]):
+        G, names, M = objs[st["g"]]
+        lim = 3.0 if _AUT.get("session_hits", 0) < 2 else 0.2     # rank <= 3: milliseconds on a healthy tree
+        done, aut = X.limited(lim, lambda: G.automaton(shortlex=st["lex"], even_length=st["even"]))
+        if not done:
+            _AUT["session_hits"] = _AUT.get("session_hits", 0) + 1
+            res.append({"step": si, "M": M, "slow": True})
+            break
+        got = _aut_graph(aut, names, st["even"])
+        ref = _aut_graph(coxeter.CoxeterGroup(matrix=np.array(M)).automaton(shortlex=st["lex"], even_length=st["even"]), alpha, st["even"])
+        res.append({"step": si, "M": M, "lex": st["lex"], "even": st["even"], "same": got == ref,
+                    "got": None if got == ref else str(got)[:300], "ref": None if got == ref else str(ref)[:300]})
+        # the caller does what it likes with the automaton it was handed
+        verts = list(aut.graph_dict)
+        if st["scribble"] == "delete" and len(verts) > 1:
+            aut.delete_vertex(verts[-1])
+        elif st["scribble"] == "rename":
+            labs = sorted({l for nb in aut.graph_dict.values() for l in nb})
+            aut.rename_generators({l: "z" + str(i) for i, l in enumerate(labs)})
+        elif st["scribble"] == "clear":
+            for nb in aut.graph_dict.values():
+                nb.clear()
+        elif st["scribble"] == "add":
+            aut.add_edges([(verts[0], verts[0], "zz")])
+    return {"res": res}
+
+
+def judge_session(inp, obs, lr):
+    if "exc" in obs:
+        return {"expected": "a session without exceptions", "observed": obs, "tags": {"exc": obs["exc"], "session": True}}
+    for r in obs["res"]:
+        if r.get("slow"):
+            return {"expected": "automaton of a rank <= 3 group within 3 s CPU", "observed": r, "tags": {"session": True, "slow": True}}
+        if not r["same"]:
+            return {"expected": "the automaton of a fresh group with the same labels (history, caller-side edits of inputs and of "
+                                "returned automata, and other groups must not matter)", "observed": r,
+                    "tags": {"session": True, "lex": r["lex"], "even": r["even"]}}
+    return None
+
+
 CLAUSES = [
     Clause("automaton_corr", "corr", gen_aut, run_aut, judge_aut, lean=lean_aut,
            site="coxeter.CoxeterGroup.automaton / coxeter_automaton.find_small_roots, generate_automaton",
@@ -663,6 +744,11 @@ CLAUSES = [
            what="the hypothesis DihedralNb of the Lean rank-2 theorems (central clause PROVED for rank 2) holds of the "
                 "implementation's small roots for m = 2..12 and infinity (0/-1/-2): a test of the one link that is not proved "
                 "for irrational cosines"),
+    Clause("session_oracle", "oracle", gen_session, run_session, judge_session, site="coxeter.CoxeterGroup.automaton (sessions)",
+           budget={"quick": 150, "thorough": 1500},
+           what="generic defences G1-G4: interleaved automaton requests (shortlex x even_length) on 2-3 groups of rank 2-3 built from "
+                "buffers, views, tuples, float/int32 arrays and one-shot diagram iterables that the caller edits afterwards; returned "
+                "automata are edited by the caller (delete_vertex, rename, clear, add_edges); every answer equals a FRESH group's"),
     Clause("language_oracle", "oracle", gen_lang, run_lang, judge_lang, lean=lean_lang,
            site="coxeter.CoxeterGroup.automaton", budget={"quick": 400, "thorough": 650},
            what="BOUNDED TEST of the unproved clause: accepted words up to length L vs independent Tits braid-move solver and "
